@@ -11,6 +11,15 @@ Arguments IOk {A} a. Arguments IErr {A}. Arguments IPanic {A}.
 Fixpoint sb (l : list Z) : string :=
   match l with [] => EmptyString | b :: t => String (ascii_of_N (Z.to_N b)) (sb t) end.
 
+(* the same, written as a string of hexadecimal digit pairs (much cheaper for Coq to read) *)
+Definition hexval (c : ascii) : N :=
+  let n := N_of_ascii c in if (n <? 58)%N then (n - 48)%N else (n - 87)%N.
+Fixpoint hx (s : string) : string :=
+  match s with
+  | String a (String b r) => String (ascii_of_N (hexval a * 16 + hexval b)) (hx r)
+  | _ => EmptyString
+  end.
+
 Inductive c08case :=
 | KLex (text : string) (r : ires (list token))
 | KParse (ftab : list (string * Z)) (text : string) (r : ires fexpr)
